@@ -3,3 +3,4 @@ import SplinkVerif.Model.Base
 import SplinkVerif.Model.CC
 import SplinkVerif.Model.MultiThreshold
 import SplinkVerif.Model.Blocking
+import SplinkVerif.Model.Score
